@@ -828,6 +828,7 @@ func stressMain(args []string) {
 	seed := fs.Int64("seed", 1, "")
 	rounds := fs.Int("rounds", 5, "")
 	dur := fs.Duration("dur", 1500*time.Millisecond, "")
+	faults := fs.Bool("faults", false, "partial elections (one node left out, fenced and added later) and node crashes")
 	_ = fs.Parse(args)
 	slog.SetDefault(slog.New(slog.NewTextHandler(io.Discard, nil)))
 	rng := rand.New(rand.NewSource(*seed))
@@ -851,8 +852,17 @@ func stressMain(args []string) {
 				n string
 				h *proto.EntryId
 			}
+			// sometimes one node is not reached by this election (partition): it stays in its old term and role
+			// and is fenced and added as a follower later
+			asked := append([]string{}, names...)
+			leftOut := ""
+			if *faults && rng.Intn(3) == 0 {
+				k := rng.Intn(len(asked))
+				leftOut = asked[k]
+				asked = append(asked[:k], asked[k+1:]...)
+			}
 			ch := make(chan hr, len(names))
-			for _, n := range names {
+			for _, n := range asked {
 				go func(n string) {
 					h, err := sim.NewTerm(n, t)
 					if err != nil {
@@ -862,7 +872,7 @@ func stressMain(args []string) {
 				}(n)
 			}
 			heads := map[string]*proto.EntryId{}
-			for range names {
+			for range asked {
 				r := <-ch
 				if r.h != nil {
 					heads[r.n] = r.h
@@ -891,6 +901,15 @@ func stressMain(args []string) {
 						mu.Lock()
 						leader = best
 						mu.Unlock()
+						if leftOut != "" && rng.Intn(2) == 0 {
+							lo, delay := leftOut, time.Duration(rng.Intn(40))*time.Millisecond
+							go func() {
+								time.Sleep(delay)
+								if h, err := sim.NewTerm(lo, t); err == nil {
+									_ = sim.AddFollower(best, t, lo, h)
+								}
+							}()
+						}
 					}
 					return
 				}
@@ -926,7 +945,20 @@ func stressMain(args []string) {
 		end := time.Now().Add(*dur)
 		for time.Now().Before(end) {
 			time.Sleep(time.Duration(40+rng.Intn(160)) * time.Millisecond)
-			if rng.Intn(3) == 0 {
+			if *faults && rng.Intn(7) == 0 {
+				// a node dies (its unsynced WAL tail and unflushed DB state are lost) and comes back
+				n := names[rng.Intn(len(names))]
+				mu.Lock()
+				if leader == n {
+					leader = ""
+				}
+				mu.Unlock()
+				if err := sim.Crash(n); err == nil {
+					time.Sleep(time.Duration(rng.Intn(20)) * time.Millisecond)
+					_ = sim.Restart(n)
+				}
+				elect()
+			} else if rng.Intn(3) == 0 {
 				mu.Lock()
 				l := leader
 				mu.Unlock()
